@@ -8,3 +8,4 @@ import Fir.Props.C03
 #print axioms Fir.C03.precision_lt_bits
 #print axioms Fir.C03.precision_ge_one
 #print axioms Fir.C03.precision_in_arms
+#print axioms Fir.C03.idealGeom_in_source
